@@ -14,8 +14,10 @@ def main():
         h = ev.get("coverage", {}).get("source_ast_hashes") or {}
         if h:
             out[ev["property_id"]] = h
+    import subprocess
+    out["__repo_head__"] = subprocess.run(["git", "-C", "/repo", "rev-parse", "HEAD"], capture_output=True, text=True).stdout.strip()
     (VERIF / "harness" / "baseline_hashes.json").write_text(json.dumps(out, indent=1, sort_keys=True) + "\n")
-    print("baseline for", sorted(out))
+    print("baseline for", sorted(k for k in out if not k.startswith("__")), "at", out["__repo_head__"][:10])
 
 
 if __name__ == "__main__":
